@@ -92,6 +92,20 @@ def run_shard(spec, rep):
             mid, half = (t0 + t1) / 2, (t0 - t1) / 2
             quad = half * sum(w * comp.get_specific_heat(mid + half * x) for x, w in zip(_GL_X, _GL_W))
             rep.check("cooling heat = integral of specific heat", abs(c01 - quad), 1e-13 * scale, case, {"got": c01, "quadrature": quad})
+            if index % 5 == 0:
+                import numpy
+
+                ts = numpy.array([t0, t1, t2, t])
+                vec = comp.get_cooling_heat(ts, t1)
+                ref_vec = [comp.get_cooling_heat(float(v), t1) for v in ts]
+                ok = hasattr(vec, "__len__") and len(vec) == 4 and all(abs(float(a) - b) <= 1e-13 * scale for a, b in zip(vec, ref_vec))
+                rep.require("array arguments are evaluated element-wise (cooling heat)", ok, case, {"vectorised": repr(vec)[:160], "element-wise": ref_vec})
+                for name in ("get_vapor_pressure", "get_vaporisation_heat", "get_specific_heat"):
+                    tsafe = numpy.array([t, t + 3.0, t - 2.0])
+                    vec = getattr(comp, name)(tsafe)
+                    ref_vec = [float(getattr(comp, name)(float(v))) for v in tsafe]
+                    ok = hasattr(vec, "__len__") and len(vec) == 3 and all(abs(float(a) - b) <= 1e-12 * (abs(b) + 1e-300) for a, b in zip(vec, ref_vec))
+                    rep.require("array arguments are evaluated element-wise (" + name + ")", ok, case, {"vectorised": repr(vec)[:160], "element-wise": ref_vec})
             d = _richardson(lambda x: comp.get_cooling_heat(x, t1), t0, H)
             cp = comp.get_specific_heat(t0)
             rep.check("d(cooling heat)/d(upper limit) = cp", abs(d - cp), 1e-12 * scale / H + 1e-9 * abs(cp), case, {"deriv": d, "cp": cp})
